@@ -32,7 +32,7 @@ var authItems = []string{
 	"S21-session-of-another-name-resumed", "S20-only-unknown-extended-key-usage", "C15-only-unknown-extended-key-usage",
 	"S22-name-constrained-ca-permits-name(allowed)", "S22-name-constrained-ca-permits-parent-domain(allowed)", "S22-name-constrained-ca-lookalike-suffix", "S22-name-constrained-ca-other-domain", "S22-name-constrained-ca-subdomain-only",
 	"S23-skx-signed-with-encryption-key", "S24-pinned-selfsigned-pair(allowed)", "S24-pinned-pair-other-name", "S24-pinned-pair-not-yet-valid", "S24-pinned-pair-expired",
-	"S25-common-name-matches-san-does-not", "S26-pair-under-expired-ca", "C16-leaf-under-expired-intermediate", "TS25-common-name-matches-san-does-not", "C17-leaf-below-ca-issued-under-pathlen-0", "C17-leaf-directly-below-pathlen-0-ca(allowed)",
+	"S25-common-name-matches-san-does-not", "S26-pair-under-expired-ca", "C16-leaf-under-expired-intermediate", "TS25-common-name-matches-san-does-not", "C17-leaf-below-ca-issued-under-pathlen-0", "C17-leaf-directly-below-pathlen-0-ca(allowed)", "C18-verifying-policy-no-client-cas-genuine-cert", "C18-verifying-policy-no-client-cas-selfsigned-cert",
 	"S19-wildcard-one-label(allowed)", "S19-wildcard-deeper-name", "S19-wildcard-parent-name", "TS19-wildcard-one-label(allowed)", "TS19-wildcard-deeper-name", "TS19-wildcard-parent-name",
 	"TS0-honest-server", "TS1-untrusted-root", "TS3-wrong-name", "TS10-rsa-key-not-held", "TS5-ecdhe-params-signed-by-other-key", "TS6-ecdhe-params-signature-over-other-randoms", "TS9-ecdhe-params-signature-garbage", "TS4-ecdsa-cert-for-rsa-suite",
 	"TC0-honest-client", "TC1-no-cert", "TC2-untrusted-ca", "TC3-cv-other-key", "TC4-cv-other-transcript", "TC5-cv-omitted", "TC5-cv-omitted-enc-only-cert", "TC3-cv-other-key-enc-only-cert", "TC12-certificate-message-omitted", "TC8-ifgiven-no-cert",
@@ -71,6 +71,7 @@ type impRun struct {
 	CallbackRejects bool      // the victim's VerifyPeerCertificate callback returns an error
 	TLS             bool      // plain TLS 1.2 victim and impostor (RSA / ECDHE_RSA suites)
 	VictimRoots     string    // TLS victim client: trusted root (default rsaCA)
+	NoClientCAs     bool      // victim server: ClientCAs left nil
 	ExtraRoot       string    // GMSSL victim client: a further trust anchor besides caA (the GMSSL client does not take intermediates from the Certificate message)
 	OtherNameFirst  bool      // session 1: the victim client asks the impostor for server2.sim (legitimately) and caches the session
 }
@@ -276,7 +277,7 @@ func drawImpostor(c *simkit.Choice, ent *simkit.Stream) impRun {
 	cc := &reftls.ClientCfg{Rand: ent, Suites: []uint16{ir.Suite}, ServerName: "server.sim"}
 	ir.ccfg = cc
 	ir.Policy = gmtls.RequireAndVerifyClientCert
-	items := []string{"C0-honest-client", "C1-no-cert", "C2-untrusted-ca", "C3-cv-other-key", "C4-cv-other-transcript", "C5-cv-omitted", "C6-selfsigned-allowed", "C7-selfsigned-cv-other-key", "C8-ifgiven-no-cert", "C9-expired", "C9-server-clock-after", "C10-eku-serverauth-only", "V2-server-callback-rejects", "C11-foreign-cert-first-own-cert-second", "C12-certificate-message-omitted", "C13-lookalike-of-trusted-root", "C14-leaf-issued-by-v1-end-entity", "C15-only-unknown-extended-key-usage", "C16-leaf-under-expired-intermediate", "C17-leaf-below-ca-issued-under-pathlen-0", "C17-leaf-directly-below-pathlen-0-ca(allowed)"}
+	items := []string{"C0-honest-client", "C1-no-cert", "C2-untrusted-ca", "C3-cv-other-key", "C4-cv-other-transcript", "C5-cv-omitted", "C6-selfsigned-allowed", "C7-selfsigned-cv-other-key", "C8-ifgiven-no-cert", "C9-expired", "C9-server-clock-after", "C10-eku-serverauth-only", "V2-server-callback-rejects", "C11-foreign-cert-first-own-cert-second", "C12-certificate-message-omitted", "C13-lookalike-of-trusted-root", "C14-leaf-issued-by-v1-end-entity", "C15-only-unknown-extended-key-usage", "C16-leaf-under-expired-intermediate", "C17-leaf-below-ca-issued-under-pathlen-0", "C17-leaf-directly-below-pathlen-0-ca(allowed)", "C18-verifying-policy-no-client-cas-genuine-cert", "C18-verifying-policy-no-client-cas-selfsigned-cert"}
 	ir.Item = items[c.Choose(len(items), simkit.LFault)]
 	verifying := []gmtls.ClientAuthType{gmtls.RequireAndVerifyClientCert, gmtls.VerifyClientCertIfGiven}
 	lax := []gmtls.ClientAuthType{gmtls.RequireAnyClientCert, gmtls.RequestClientCert}
@@ -339,6 +340,16 @@ func drawImpostor(c *simkit.Choice, ent *simkit.Stream) impRun {
 	case "C14-leaf-issued-by-v1-end-entity":
 		cc.Cert = &reftls.Identity{Chain: [][]byte{pki.DER("forged-cli"), pki.DER("v1ee")}, Key: pki.D("forged-cli")}
 		ir.Policy = verifying[c.Choose(2, simkit.LFault)]
+	case "C18-verifying-policy-no-client-cas-genuine-cert", "C18-verifying-policy-no-client-cas-selfsigned-cert":
+		// the server demands verified client certificates but was given no ClientCAs
+		// pool: nothing in the fixture PKI chains to the system roots, so nobody is
+		// certified - least of all the holder of a self-made certificate
+		cc.Cert = ident("cli", true)
+		if ir.Item == "C18-verifying-policy-no-client-cas-selfsigned-cert" {
+			cc.Cert = ident("cliself", true)
+		}
+		ir.Policy = verifying[c.Choose(2, simkit.LFault)]
+		ir.NoClientCAs = true
 	case "C17-leaf-below-ca-issued-under-pathlen-0":
 		// caA -> issuing CA with pathLenConstraint 0 -> a further CA (issued in violation
 		// of the constraint) -> leaf: the chain has one intermediate too many
@@ -535,6 +546,9 @@ func runAuthImpostor(c *simkit.Choice, r *simkit.Rec) {
 				conn = gmtls.Client(vRaw, vc)
 			} else if ir.VictimSrv {
 				vs := victimServerCfg(s, ir.Suite, entV, skew, policy)
+				if ir.NoClientCAs {
+					vs.ClientCAs = nil
+				}
 				if ir.CallbackRejects && tag == "2" {
 					vs.VerifyPeerCertificate = reject
 				}
